@@ -2,6 +2,7 @@ package rules
 
 import (
 	"fmt"
+	"go/constant"
 	"go/token"
 	"go/types"
 	"os"
@@ -122,6 +123,11 @@ func analyseResolver(c *core.Ctx, fn *ssa.Function, rules map[string]bool) {
 	listCells := map[string]bool{} // cells holding the list under construction (receivers of SumMerge)
 	x.Hooks.BackEdge = func(x *absint.Exec, s *absint.State, f *absint.Frame, h *ssa.BasicBlock) {
 		if f.Fn == fn {
+			// every ingredient is descended to, whatever it turns out to be: that step is what counts the reference
+			// against the limit (an undefined name at depth N must still trip it)
+			if s.Data["rec"] == "" && len(s.Frames) == 1 {
+				report("C11-R2", "every-reference", lastPos(h), "an iteration over the ingredients ends without the walk having descended to that ingredient: its reference is not counted, so a chain of exactly N references, the last one to a plain element, is accepted under limit N")
+			}
 			s.SetData("rec", "")
 			delete(s.Data, "early")
 		}
@@ -129,7 +135,7 @@ func analyseResolver(c *core.Ctx, fn *ssa.Function, rules map[string]bool) {
 	// when was a recipe's list read: before or after that recipe was expanded (the expansion replaces the list, so a
 	// list read before it is the unexpanded one)
 	x.Hooks.Load = func(x *absint.Exec, s *absint.State, in *ssa.UnOp, addr, val absint.Value) {
-		if p, ok := addr.(absint.Ptr); ok && len(s.Frames) == 1 && strings.HasSuffix(p.Loc, "·Elements") && strings.HasPrefix(p.Loc, "L:lookup(") {
+		if p, ok := addr.(absint.Ptr); ok && strings.HasSuffix(p.Loc, "·Elements") && strings.HasPrefix(p.Loc, "L:lookup(") {
 			own := false // the list of the recipe being resolved itself
 			for _, prm := range fn.Params {
 				if strings.Contains(p.Loc, ",§"+prm.Name()+")·Elements") {
@@ -149,9 +155,19 @@ func analyseResolver(c *core.Ctx, fn *ssa.Function, rules map[string]bool) {
 		switch {
 		case callee == fn:
 			// recursive call: remember which name was expanded
+			named := false
 			for i, p := range fn.Params {
 				if bt, ok := p.Type().Underlying().(*types.Basic); ok && bt.Kind() == types.String && i < len(args) {
 					s.SetData("rec", args[i].Key())
+					named = true
+				}
+			}
+			if !named {
+				// the walk is handed the recipe itself instead of its name
+				for i, p := range fn.Params {
+					if _, ok := p.Type().Underlying().(*types.Pointer); ok && i < len(args) && s.Data["rec"] == "" {
+						s.SetData("rec", "node:"+args[i].Key())
+					}
 				}
 			}
 			s.Event("expand %s", s.Data["rec"])
@@ -167,6 +183,10 @@ func analyseResolver(c *core.Ctx, fn *ssa.Function, rules map[string]bool) {
 				listCells[rp.Loc] = true
 				// found branch: merging a recipe's resolved list
 				rec := s.Data["rec"]
+				byNode := strings.HasPrefix(rec, "node:") && "L:"+strings.TrimPrefix(rec, "node:")+"·Elements" == loc
+				if byNode {
+					return absint.Const{}, true // the coefficient is judged where the name is at hand
+				}
 				if rec == "" || !strings.Contains(loc, ","+rec+")·Elements") {
 					report("C01-R3", "expand-before-merge", site.Pos(), "the elements of %s are merged although no expansion of that recipe precedes the merge on this path (last expanded: %q): a recipe name can be left unexpanded", loc, rec)
 				} else if s.Data["early"] == loc {
@@ -242,6 +262,10 @@ func analyseResolver(c *core.Ctx, fn *ssa.Function, rules map[string]bool) {
 	}
 	x.Hooks.Store = func(x *absint.Exec, s *absint.State, in *ssa.Store, addr, val absint.Value) {
 		p, ok := addr.(absint.Ptr)
+		// an amount of the list under construction written in place (rounded, clamped, scaled after the merge)
+		if ok && (strings.HasPrefix(p.Loc, "L:merged(") || strings.HasPrefix(p.Loc, "L:added(")) && strings.Contains(p.Loc, "]") {
+			report("C01-R5", "amounts-rewritten", in.Pos(), "an element of the list under construction is written in place after merging (its %s): amounts that are rounded, clamped or otherwise adjusted at every level of nesting are no longer the sum of the products of the quantities", strings.TrimPrefix(p.Loc[strings.LastIndex(p.Loc, "]")+1:], "·"))
+		}
 		if ok && strings.HasPrefix(p.Loc, "A:r/") && len(s.Frames) == 1 {
 			// the list under construction must not become an alias of a recipe's own list
 			if loc := locOf(x, val); strings.HasSuffix(loc, "·Elements") && strings.Contains(loc, "lookup(") {
@@ -259,6 +283,10 @@ func analyseResolver(c *core.Ctx, fn *ssa.Function, rules map[string]bool) {
 		}
 		s.SetData("wrote", "1")
 		s.Event("store %s = %s", p.Loc, val.Key())
+		// what is stored as the recipe's list is a list of its own, not the very list of another recipe
+		if loc := locOf(x, val); loc != p.Loc && strings.HasSuffix(loc, "·Elements") && strings.Contains(loc, "lookup(") {
+			report("C01-R5", "alias", in.Pos(), "the list stored for the recipe is another recipe's element list itself (%s), not a copy: merging into it and sorting it have rewritten that recipe, and the two now share one list", loc)
+		}
 		if !rules["C01-R1"] {
 			return
 		}
@@ -269,6 +297,36 @@ func analyseResolver(c *core.Ctx, fn *ssa.Function, rules map[string]bool) {
 			if _, isC := val.(absint.Const); !isC {
 				_ = t
 			}
+		}
+	}
+	// a set of the recipes the walk is inside of (a cycle is then reported at once): the mark set on entry is cleared
+	// on every way out that reports success
+	isNameKey := func(k absint.Value) bool {
+		for _, prm := range fn.Params {
+			if bt, ok := prm.Type().Underlying().(*types.Basic); ok && bt.Kind() == types.String && k.Key() == (absint.Sym{Name: prm.Name()}).Key() {
+				return true
+			}
+		}
+		return false
+	}
+	x.Hooks.MapUpdate = func(x *absint.Exec, s *absint.State, in *ssa.MapUpdate, m, k, v absint.Value) {
+		if len(s.Frames) != 1 || !isNameKey(k) {
+			return
+		}
+		if bt, ok := in.Value.Type().Underlying().(*types.Basic); !ok || bt.Kind() != types.Bool {
+			if _, isEmpty := in.Value.Type().Underlying().(*types.Struct); !isEmpty {
+				return
+			}
+		}
+		if b, isC := v.(absint.Const); isC && b.V != nil && b.V.Kind() == constant.Bool && !constant.BoolVal(b.V) {
+			delete(s.Data, "mark")
+			return
+		}
+		s.SetData("mark", c.P.Pos(in.Pos()))
+	}
+	x.Hooks.Builtin = func(x *absint.Exec, s *absint.State, in *ssa.Call, name string, args []absint.Value) {
+		if name == "delete" && len(args) == 2 && isNameKey(args[1]) {
+			delete(s.Data, "mark")
 		}
 	}
 	st := x.NewState(fn, nil, nil)
@@ -377,6 +435,25 @@ func analyseResolver(c *core.Ctx, fn *ssa.Function, rules map[string]bool) {
 					guardBad++
 				}
 			case "<":
+				if retNil && tm.State.Data["mark"] != "" {
+					report("C11-R2", "mark-cleared", tm.Pos, "the walk marks the recipe as one it is inside of (%s) and reports success without clearing the mark: a second reference to the same recipe from another branch is then taken for a cycle, and a book that shares a sub-recipe fails with the depth error far below the limit", tm.State.Data["mark"])
+					guardBad++
+				}
+				if t, isT := tm.Ret[0].(*absint.Term); isT && (t.Op == "call:fmt.Errorf" || t.Op == "call:errors.New") {
+					// an error made here, below the limit: only for a recipe the walk is inside of (a cycle, which ends at the limit anyway)
+					onCycle := false
+					for k := range tm.State.PC {
+						if strings.HasPrefix(k, "b(lookup(") && nameParamIn(fn, strings.TrimSuffix(k, ")")) {
+							if o := x.Possible(tm.State, k); len(o) == 1 && o[0] == "T" {
+								onCycle = true
+							}
+						}
+					}
+					if !onCycle {
+						report("C11-R2", "guard", tm.Pos, "below the limit (exists=%q) the walk fails with an error of its own (%s) that no deeper level reported: a book whose chains are all shorter than the limit is rejected", has, tm.Ret[0].Key())
+						guardBad++
+					}
+				}
 				if has == "F" && (!retNil || wrote) {
 					report("C11-R2", "guard", tm.Pos, "an undefined name below the limit must be accepted untouched, but the walk returns %s (wrote=%v)", tm.Ret[0].Key(), wrote)
 					guardBad++
@@ -587,4 +664,42 @@ func directSetting(v ssa.Value) (string, bool) {
 		}
 	}
 	return "too deeply nested", false
+}
+
+// ruleResolverShapes: every function of package resolver that stores a recipe's element list is one of the directly
+// recursive walks the other rules analyse. A walk whose recursion goes through another function, or that keeps its
+// own stack, stores lists the rules have not looked at: reported as undecided, never passed in silence.
+func ruleResolverShapes(c *core.Ctx, rule string) {
+	analysed := map[*ssa.Function]bool{}
+	for _, r := range recursiveResolvers(c.P) {
+		analysed[r] = true
+	}
+	for _, fn := range c.P.Funcs {
+		if core.FnPkgPath(fn) != resolverPkg || len(fn.Blocks) == 0 {
+			continue
+		}
+		top := fn
+		for top.Parent() != nil {
+			top = top.Parent()
+		}
+		for _, b := range fn.Blocks {
+			for _, in := range b.Instrs {
+				st, ok := in.(*ssa.Store)
+				if !ok {
+					continue
+				}
+				fa, ok := st.Addr.(*ssa.FieldAddr)
+				if !ok || fieldName(fa.X.Type(), fa.Field) != "Elements" || !strings.HasSuffix(fa.X.Type().String(), ".DBNode") {
+					continue
+				}
+				fname := core.FuncName(fn)
+				c.Universe(rule+" functions that store a recipe's list", fname+" ("+c.P.Pos(st.Pos())+")")
+				if analysed[top] {
+					c.Discharge(rule, fname, "shape", c.P.Pos(st.Pos()), "the list is stored by a directly recursive walk, which the guard and construction rules analyse")
+				} else {
+					c.Undecide(rule, fname, "shape", c.P.Pos(st.Pos()), "a recipe's element list is stored by a function that is not a directly recursive walk (its recursion goes through another function, or it keeps a stack of its own): the depth guard and the construction of the list are not modelled for this shape, so nothing is claimed about it", nil)
+				}
+			}
+		}
+	}
 }
